@@ -52,11 +52,15 @@ impl Monitor for C13 {
             }
             _ => out.count("c13.raw_layout_unrecognised"),
         }
-        let (sender, v) = match c.op {
-            Op::RemoveValidator { sender, validator } => (sender, validator),
+        // `manual`: the registry's public `Redelegations` message, the second half of a removal whose redelegation was
+        // locked when the validator was taken out ("we'll do a redelegation manually later"); judged like the
+        // redelegation of a removal
+        let (sender, v, manual) = match c.op {
+            Op::RemoveValidator { sender, validator } => (sender, validator, false),
+            Op::Redelegations { sender, validator } => (sender, validator, true),
             _ => return,
         };
-        if sender != OWNER {
+        if !manual && sender != OWNER {
             return;
         }
         let was_registered = pre.registry.iter().any(|x| &x.0 == v);
@@ -75,7 +79,19 @@ impl Monitor for C13 {
         } else {
             (c.res, post)
         };
-        if !res.ok() {
+        if manual {
+            if !res.ok() {
+                out.count("c13.manual_redelegations_failed");
+                return;
+            }
+            out.count("c13.manual_redelegations_ok");
+            if was_registered || registered(pre).iter().any(|x| *x == v) {
+                // not something the property speaks about
+                out.count("c13.manual_redelegations_of_registered_validator_accepted");
+                return;
+            }
+        }
+        if !manual && !res.ok() {
             out.count("c13.removals_failed");
             if pre.registry.len() == 1 && was_registered {
                 out.count("c13.last_validator_removal_rejected");
@@ -86,12 +102,14 @@ impl Monitor for C13 {
             }
             return;
         }
-        out.count("c13.removals_ok");
-        if post.registry.iter().any(|x| &x.0 == v) || registered(post).iter().any(|x| *x == v) {
-            out.violation(P, "taken_out_of_registry", format!("{} still registered after a successful removal", v));
-        }
-        if post.registry.is_empty() || registered(post).is_empty() {
-            out.violation(P, "never_empty", "the registry is empty after a removal".into());
+        if !manual {
+            out.count("c13.removals_ok");
+            if post.registry.iter().any(|x| &x.0 == v) || registered(post).iter().any(|x| *x == v) {
+                out.violation(P, "taken_out_of_registry", format!("{} still registered after a successful removal", v));
+            }
+            if post.registry.is_empty() || registered(post).is_empty() {
+                out.violation(P, "never_empty", "the registry is empty after a removal".into());
+            }
         }
         let d0 = pre.delegations.get(v).cloned().unwrap_or(0);
         let allowed = c.w_pre.can_redelegate(HUB, v) >= d0 && !c.w_pre.redelegate_blocked;
@@ -103,12 +121,14 @@ impl Monitor for C13 {
                 _ => None,
             })
             .collect();
-        if self.removed_once.contains(v) {
-            out.count("c13.removals_of_re_added_validator");
+        if !manual {
+            if self.removed_once.contains(v) {
+                out.count("c13.removals_of_re_added_validator");
+            }
+            self.removed_once.insert(v.clone());
         }
-        self.removed_once.insert(v.clone());
         if d0 > 0 && allowed {
-            out.count("c13.removals_with_stake_redelegated");
+            out.count(if manual { "c13.manual_redelegations_with_stake_moved" } else { "c13.removals_with_stake_redelegated" });
             if !pre.pending_rewards.is_empty() {
                 out.count("c13.removals_with_pending_rewards");
             }
@@ -139,15 +159,15 @@ impl Monitor for C13 {
             if gap0 != gap1 {
                 out.violation(P, "total_stake_unchanged", format!("delegated - booked changed {} -> {} (delegated {} -> {}, books {} -> {})", gap0, gap1, pre.total_delegated, post.total_delegated, pre.pool_b + pre.pool_s, post.pool_b + post.pool_s));
             }
-            out.distinct(&("remove", pre.registry.len(), red.len(), decade(d0), !pre.pending_rewards.is_empty()));
+            out.distinct(&(if manual { "manual" } else { "remove" }, pre.registry.len(), red.len(), decade(d0), !pre.pending_rewards.is_empty()));
         } else if d0 > 0 {
-            out.count("c13.removals_while_redelegation_locked");
+            out.count(if manual { "c13.manual_redelegations_while_locked" } else { "c13.removals_while_redelegation_locked" });
             if !red.is_empty() {
                 out.violation(P, "locked_leaves_stake", format!("redelegation was not allowed but {:?} was emitted", red));
             }
             out.distinct(&("remove_locked", pre.registry.len(), decade(d0)));
         } else {
-            out.count("c13.removals_without_stake");
+            out.count(if manual { "c13.manual_redelegations_without_stake" } else { "c13.removals_without_stake" });
             out.distinct(&("remove_empty", pre.registry.len()));
         }
     }
